@@ -944,6 +944,90 @@ class Run:
             raise Divergent("cherry-pick stopped")
         self._expect(act)
 
+    # ---- operations that stop on a conflict: resolve every unmerged file the way act["res"] says, stage, conclude
+    def _unmerged(self):
+        out = self.plain(["diff", "--name-only", "--diff-filter=U", "-z"], check=False).stdout
+        return [x.decode("utf-8", errors="surrogateescape") for x in out.split(b"\0") if x]
+
+    def _resolve_all(self, res):
+        paths = self._unmerged()
+        for path in paths:
+            if res == "theirs":
+                self.plain(["checkout", "--theirs", "--", ":(top)" + path])
+            else:
+                def stage(n):
+                    p = self.plain(["show", ":%d:%s" % (n, path)], check=False)
+                    return p.stdout if p.returncode == 0 else b""
+                base, ours, theirs = stage(1), stage(2), stage(3)
+                base_lines = set(base.splitlines(True))
+                added = [ln for ln in theirs.splitlines(True) if ln not in base_lines]
+                if ours and not ours.endswith(b"\n") and added:
+                    ours += b"\n"
+                with open(os.path.join(self.repo, path), "wb") as fh:
+                    fh.write(ours + b"".join(added))
+            self.wrapped(["add", "--", ":(top)" + path])
+        return len(paths)
+
+    def _episode(self, act, start, cont, abort, in_progress):
+        """start: argv of the command; cont / abort: argv to continue / abort; in_progress(): is the operation open"""
+        p = self.wrapped(start)
+        if p.returncode == 0:
+            raise Divergent("%s: git found no conflict where the generator expected one" % act["a"])
+        stops = 0
+        if act["how"] == "abort":
+            if not self._unmerged():
+                self.plain(abort, check=False)
+                raise Divergent("%s: stopped without unmerged paths" % act["a"])
+            self.wrapped(abort)
+            self._expect(act)
+            return
+        it = 0
+        while in_progress() and it < 12:
+            it += 1
+            n = self._resolve_all(act["res"])
+            if n == 0 and stops == 0:
+                break
+            if n == 0:
+                # the stop was concluded by a plain commit and more picks are queued: go on
+                q = self.wrapped(cont, extra_env={"GIT_EDITOR": "true"})
+                if q.returncode != 0 and not self._unmerged():
+                    break
+                continue
+            stops += 1
+            if act["how"] == "commit":
+                q = self.wrapped(["commit", "-q", "--no-edit"])
+            else:
+                q = self.wrapped(cont, extra_env={"GIT_EDITOR": "true"})
+            if q.returncode != 0 and not self._unmerged() and in_progress():
+                # nothing left to commit (the resolution made the pick empty) or another refusal
+                self.plain(abort, check=False)
+                raise Divergent("%s: could not conclude (%s)" % (act["a"], q.stderr.decode(errors="replace")[-120:]))
+        if in_progress():
+            self.plain(abort, check=False)
+            raise Divergent("%s: still in progress after %d stops" % (act["a"], stops))
+        exp = act.get("exp") or {}
+        if exp and exp.get("stops") is not None and stops != exp["stops"]:
+            raise Divergent("%s: %d stops, the generator expected %d" % (act["a"], stops, exp["stops"]))
+        self._expect(act)
+
+    def _gitdir_has(self, name):
+        gd = self.plain(["rev-parse", "--git-dir"]).stdout.decode().strip()
+        gd = gd if os.path.isabs(gd) else os.path.join(self.repo, gd)
+        return os.path.exists(os.path.join(gd, name))
+
+    def act_CherryPickR(self, act):
+        self._episode(act, ["cherry-pick", self.c2sha[act["c"]]], ["cherry-pick", "--continue"], ["cherry-pick", "--abort"],
+                      lambda: self._gitdir_has("CHERRY_PICK_HEAD") or self._gitdir_has("sequencer"))
+
+    def act_CherryPickManyR(self, act):
+        self._episode(act, ["cherry-pick"] + [self.c2sha[c] for c in act["cs"]], ["cherry-pick", "--continue"],
+                      ["cherry-pick", "--abort"],
+                      lambda: self._gitdir_has("CHERRY_PICK_HEAD") or self._gitdir_has("sequencer"))
+
+    def act_RebaseR(self, act):
+        self._episode(act, ["rebase", "-q", self._other()], ["rebase", "--continue"], ["rebase", "--abort"],
+                      lambda: self._gitdir_has("rebase-merge") or self._gitdir_has("rebase-apply"))
+
     def act_Amend(self, act):
         self.wrapped(["add", "-A"])
         self.wrapped(["commit", "-q", "--amend", "--no-edit"])
